@@ -221,7 +221,7 @@ def gen_history(rng, ref):
                 shadow['start_sample'] = np.array([s0 for s0, e in ref.segs], dtype=float)
                 shadow['stop_sample'] = np.array([e - 1 for s0, e in ref.segs], dtype=float)
                 names.extend(['start_sample', 'stop_sample', 'duration'])
-            thr = float(np.sort(shadow['start_sample'])[K // 2])
+            thr = float(np.sort(shadow['start_sample'])[K // 2]) + float(gens.pick(rng, [0, 0, .5, -.5, .25]))     # (a fractional threshold on an integer-valued metric)
             cond = ('start_sample', '<' if t == 'pick1' else '>=', literal(rng, thr)) if rng.random() < .5 else \
                    ('duration', '>=' if t == 'pick1' else '<=', literal(rng, float(np.median(dur))))
             h.append({'op': 'pick', 'conds': [cond]})
